@@ -324,8 +324,11 @@ static bool pipelineSerialFaultRound(long n, int threads, bool openGen) {
                   !aParked.exchange(1, std::memory_order_acq_rel)) {
                 ranAtFault.store(k, std::memory_order_relaxed);
                 if (waitFor([&]() { return thrown.load(std::memory_order_acquire) != 0; }, 10000)) {
-                  usleep(30000); // the catch handler of the sink's task records the exception in the task set
-                  resumed.store(1, std::memory_order_release);
+                  // go on when the catch handler of the sink's task has recorded the exception: this call runs inside
+                  // a task of the pipeline's ConcurrentTaskSet, which is what parentTaskSet() returns
+                  dispenso::TaskSetBase* ts = dispenso::parentTaskSet();
+                  if (ts && waitFor([ts]() { return ts->canceled(); }, 10000))
+                    resumed.store(1, std::memory_order_release);
                 }
               }
               return v + 1;
